@@ -21,7 +21,7 @@ def _aff(o, p):
     if o is ecm.INFINITY:
         return EC.O
     if isinstance(o, ecm.Point):
-        return (o.x() % p, o.y() % p)
+        return (o.x(), o.y())                   # raw: the affine coordinates of a result are canonical residues
     X, Y, Z = o._PointJacobi__coords
     if Z % p == 0 or Y % p == 0:
         return EC.O
@@ -75,9 +75,9 @@ def scalar_mul_bounded(tier, seed):
                     if not ok:
                         found.setdefault("ellipticcurve.PointJacobi.__mul__#k-fold-sum", (dict(self=Recipe("ecdsa.ellipticcurve.PointJacobi(%s, %d, %d, %d, %r, %r)" % (
                             cexpr, P[0] * z * z % p, P[1] * z ** 3 % p, z, order, gen)), other=k), obs))
-                # legacy affine class
+                # legacy affine class (several times the order: the ladder meets the identity and -P for k = m*n - 1)
                 if z == 1 and not gen:
-                    for k in range(-3, 2 * n + 4):
+                    for k in range(-2 * n - 3, 5 * n + 4):
                         lp = ecm.Point(cur, P[0], P[1], order)
                         exp = EC.mul(k, P, p, a)
                         n_cases += 1
@@ -117,7 +117,8 @@ def scalar_mul_bounded(tier, seed):
         G = c_.generator
         p, a, n = c_.curve.p(), c_.curve.a(), c_.order
         g = (G.x(), G.y())
-        for k in (0, 1, 2, 3, n - 2, n - 1, n, n + 1, 2 * n - 1, 2 * n, 2 * n + 1, 3 * n - 2, -1, -2, -(n - 2), 5 * n + 7, 2 ** 300 + 1):
+        for k in (0, 1, 2, 3, n - 2, n - 1, n, n + 1, 2 * n - 1, 2 * n, 2 * n + 1, 3 * n - 2, 3 * n - 1, 4 * n - 2, 4 * n - 1, 4 * n + 1, 5 * n - 1, -1, -2, -(n - 2), -(n + 1), 5 * n + 7, 2 ** 300 + 1,
+                  (2 ** 48 - 1) // 3, (2 ** 62 - 1) // 3, (2 ** 200 - 1) // 3, 2 ** 47 - 1, 2 ** 64 + 1):
             exp = EC.mul(k % n, g, p, a)
             n_cases += 1
             for obj, label in ((G, "generator"), (ecm.PointJacobi(c_.curve, g[0] * 4 % p, g[1] * 8 % p, 2, n), "scaled copy"), (ecm.PointJacobi(c_.curve, g[0], g[1], 1), "no order")):
@@ -152,7 +153,7 @@ def fresh(ecm, cur, pt, n, style):
 def aff(ecm, o, p):
     if o is ecm.INFINITY:
         return None
-    return (o.x() % p, o.y() % p)
+    return (o.x(), o.y())                 # raw: coordinates handed to the user are canonical residues
 
 
 def run_history(ecm, cur, n, init, trace):
@@ -195,7 +196,7 @@ def run_history(ecm, cur, n, init, trace):
 
 def observe(ecm, cur, o, other, k):
     p = cur.p()
-    return {"x": o.x() % p, "y": o.y() % p, "aff": aff(ecm, o.to_affine(), p), "dbl": aff(ecm, o.double(), p), "mul": aff(ecm, o * k, p),
+    return {"x": o.x(), "y": o.y(), "aff": aff(ecm, o.to_affine(), p), "dbl": aff(ecm, o.double(), p), "mul": aff(ecm, o * k, p),
             "rmul": aff(ecm, k * o, p), "add": aff(ecm, o + other, p), "eq": (o == other), "neg": aff(ecm, -o, p),
             "mul_add": aff(ecm, o.mul_add(k, other, 3), p)}
 """
